@@ -162,7 +162,9 @@ def model_correspondence(chk, rng):
                            "options": opts, "files": files}, bool(code & 2 and code >> 2 == 0))
         elif code & 2:
             if code >> 2 == 1:
-                if not chk.known("file-order-anchors", True):
+                # region 1: names compete; which recorded finding it is (file order or the id-hashed
+                # toposort set) is decided on the witnesses in findings(), here only: is it recorded?
+                if not (chk.known("file-order-anchors", False) or chk.known("toposort-id-order", False)):
                     chk.violation("failing-input", {"what": "identifiers depend on the enumeration order",
                                                     "files": files, "options": opts}, True)
             else:
@@ -371,8 +373,8 @@ WIT_USES = {"src/a.f90": "module ma\nend module ma\n", "src/b.f90": "module mb\n
             "src/d.f90": "module md\nend module md\n",
             "src/c.f90": "module mc\n  use ma\n  use mb\n  use md\nend module mc\n"}
 WIT_FOUR = {f"src/{c}.f90": f"module m{c}\n  integer :: v{c}\n    !! doc of v{c}\nend module m{c}\n" for c in "abcd"}
-WIT_TWINS = {"src/a.f90": "module m\n  integer :: xa\nend module m\n",
-             "src/b.f90": "module m\n  integer :: xb\nend module m\n"}
+WIT_TWINS = {f"src/{nm}{k}.f90": f"module {nm}\n  integer :: x{nm}{k}\nend module {nm}\n"
+             for nm in "mnpq" for k in "ab"}
 WIT_KIDS = {"src/a.f90": "module ma\n  type :: base\n    integer :: i\n  end type\n"
                          + "".join(f"  type, extends(base) :: c{k}\n    integer :: j{k}\n  end type\n" for k in range(1, 5))
                          + "end module ma\n"}
